@@ -47,7 +47,7 @@ def build(case):
     arr[..., 0] = np.arange(int(np.prod(n))).reshape(n) * 1.0 + 0.5
     valid = gen.make_mask(case["mask"], n)
     kw = {"vdims": list(case["vdims"])} if case.get("vdims") else {}
-    f = df.Field(mesh, nvdim=case["k"], value=arr, valid=valid, unit=case["unit"], **kw)
+    f = df.Field(mesh, nvdim=case["k"], value=np.array(arr, copy=True), valid=np.array(valid, copy=True), unit=case["unit"], **kw)
     return mesh, f, arr, valid
 
 
@@ -115,6 +115,15 @@ def plane_case(draw):
     return c
 
 
+def owns_its_memory(res, f, arr, valid, what):
+    """the result is a field of its own: overwriting its values and validity in place leaves the source as it was (and
+    therefore every later selection from the source correct)"""
+    res.array[...] = 0
+    res.valid[...] = ~res.valid
+    if not (np.array_equal(f.array, arr) and np.array_equal(f.valid, valid)):
+        raise Violation(f"result-shares-memory:{what}", f"writing into the result of {what} changed the field it was taken from")
+
+
 def check_plane(case):
     import discretisedfield as df
 
@@ -160,6 +169,7 @@ def check_plane(case):
     if not ok:
         raise Violation("plane-value", f"axis {d} selection {case['sel']}: result is not the layer of cells {cands}")
     require(np.array_equal(f.array, arr) and np.array_equal(f.valid, valid), "source-modified")
+    owns_its_memory(res, f, arr, valid, "plane")
 
 
 # --------------------------------------------------------------------------- range
@@ -250,6 +260,7 @@ def check_range(case):
             require(int(rm.n[e]) == lat.n[e] and corners_close(lat, e, rm.region.pmin[e], rm.region.pmax[e], 0, lat.n[e]),
                     "range-other-axes")
     require(list(rm.region.dims) == dims and list(rm.region.units) == gen.units_of(g), "range-names")
+    owns_its_memory(res, f, arr, valid, "range")
 
 
 # --------------------------------------------------------------------------- by name / region / slices
@@ -328,6 +339,7 @@ def check_region(case):
         if tuple(got) != sl:
             raise Violation("region2slices", f"{got} vs {sl}")
     require(np.array_equal(f.array, arr) and np.array_equal(f.valid, valid), "source-modified")
+    owns_its_memory(res, f, arr, valid, "getitem")
 
 
 # --------------------------------------------------------------------------- pad
@@ -403,6 +415,7 @@ def check_pad(case):
                             f"cell {j}: value {res.array[j]} valid {res.valid[j]}; expected {ev} {em}")
     mp = mesh.pad(pw)
     require(mp == res.mesh, "pad-mesh-vs-field")
+    owns_its_memory(res, f, arr, valid, "pad")
 
 
 # --------------------------------------------------------------------------- resample
@@ -438,6 +451,7 @@ def check_resample(case):
             raise Violation("resample-value", f"new cell {j}: value {res.array[j]} valid {res.valid[j]} is not that of a "
                                               f"source cell containing its centre (candidates {ad})")
     tag("ties" if ties else "no-ties")
+    owns_its_memory(res, f, arr, valid, "resample")
 
 
 # --------------------------------------------------------------------------- rejections
